@@ -109,7 +109,7 @@ def encPrimsCW (relative : Bool) : Prims where
   newRefval := encNewRefvalC
   constant := encConstantC
   factorValue := encFactorC
-  lastValues := encLastValues
+  lastValues := encLastValuesC
 
 /-- the compressed data bits with the requested widths, and what the encoder reports per subset -/
 def encodeCompressedW (tmpl : List Desc) (valss : List (List Val)) (relative : Bool) (reqs : List Int) :
